@@ -12,7 +12,8 @@
    operators ([table_ok]; any number of levels, any prefix operators, the empty table included), every
    identifier chain, every expression, every fuel - no bound on depth or length. *)
 From P2 Require Import Base.Prelude Lex.Token Syn.Ast Syn.Parse Syn.Render Syn.ParseRel Syn.ParseProofs
-  Syn.ParseSound Syn.ParseTotal Syn.ParseCor.
+  Syn.ParseSound Syn.ParseTotal Syn.ParseCor Syn.Full Syn.FullProofs Syn.FullSound Syn.TextToAst.
+From P2 Require Lex.Tok Lex.TokProofs.
 
 (* completeness: every well-formed rendering is parsed, as a whole, to exactly the tree it denotes
    ([parse] = Parser.Parse on the token list, with the linear fuel of C03_parse_total) *)
@@ -60,6 +61,49 @@ Theorem C03_reject_unbalanced : forall cfg ids, table_ok cfg = true ->
   forall f ts, frag_toks ts = true -> balanced ts = false ->
   forall e, parse_fuel cfg f ids ts <> POk e.
 Proof. exact (fun cfg ids H => reject_unbalanced cfg ids H). Qed.
+
+(* FULL GRAMMAR (Syn/Full.v): rendering trees [ft] with let / func / if-then-else / switch-case-default / try-catch /
+   closures  x -> e ,  (a, b) -> e  / list and map literals; [fwf] adds the grammar facts (let / func only where parseLet
+   is called; forms ending in an open parseLet tail absorb what follows); [ferase ids r] is the annotated AST the tree
+   denotes for the identifier chain ids - identifiers resolved through the scope stack, constant lets propagated,
+   closures with OuterIdents / Recursive / ThisName computed from the names their bodies look up - together with
+   the names looked up.  Completeness: Parser.Parse on the tokens of any well-formed tree yields exactly that AST,
+   for every operator table and every identifier chain. *)
+Theorem C03_parse_complete_full : forall cfg, table_ok cfg = true ->
+  forall ids r e u, fwf cfg r = true -> ferase cfg ids r = Some (e, u) -> parse cfg ids (fflatten cfg r) = POk e.
+Proof. exact parse_complete_full. Qed.
+
+(* soundness for the full grammar: whatever Parser.Parse accepts (tokens as the tokenizer writes them: [full_toks])
+   is, token for token, a well-formed rendering of the annotated AST it returns - no truncation, no regrouping, and
+   the annotations (constant propagation, OuterIdents, Recursive, ThisName) are the ones the scope stack demands;
+   [frenders cfg ids e ts] := some well-formed tree r with ferase ids r = (e, _) flattens to ts *)
+Theorem C03_parse_sound_full : forall cfg, table_ok cfg = true ->
+  forall f ids ts e, full_toks ts = true -> parse_fuel cfg f ids ts = POk e -> frenders cfg ids e ts.
+Proof. exact parse_sound_full. Qed.
+
+(* both directions: the parser accepts exactly the renderings, and returns exactly the AST they denote *)
+Theorem C03_parse_iff_renders : forall cfg, table_ok cfg = true -> forall ids ts e, full_toks ts = true ->
+  (parse cfg ids ts = POk e <-> frenders cfg ids e ts).
+Proof. exact parse_iff_renders. Qed.
+
+(* TEXT to AST (composition with the tokenizer model of C15): for every well-formed layout - the lexemes separated by
+   arbitrary runs of blanks, tabs, CR, LF, line and block comments (Lex/TokProofs.wf_layout) - whose lexemes denote the
+   tokens of a well-formed tree of the full grammar, tokenizing the text and parsing the tokens yields exactly the
+   annotated AST the tree denotes; and any two well-formed layouts of the same lexemes give the same result *)
+Theorem C03_text_to_ast : forall (tc : P2.Lex.Tok.tcfg) (pc : pcfg) (ids : idents) items r e u,
+  P2.Lex.TokProofs.ops_ok tc -> P2.Lex.TokProofs.wf_layout tc tInvalid false items ->
+  P2.Lex.TokProofs.lexeme_tokens items = fflatten pc r ->
+  table_ok pc = true -> fwf pc r = true -> ferase pc ids r = Some (e, u) ->
+  parse_tokens pc ids (P2.Lex.Tok.tokenize tc (P2.Lex.Tok.layout_text items)) = POk e.
+Proof. exact text_to_ast. Qed.
+
+Theorem C03_text_layout_irrelevant : forall (tc : P2.Lex.Tok.tcfg) (pc : pcfg) (ids : idents) items items',
+  P2.Lex.TokProofs.ops_ok tc ->
+  P2.Lex.TokProofs.wf_layout tc tInvalid false items -> P2.Lex.TokProofs.wf_layout tc tInvalid false items' ->
+  P2.Lex.TokProofs.lexeme_tokens items = P2.Lex.TokProofs.lexeme_tokens items' ->
+  parse_tokens pc ids (P2.Lex.Tok.tokenize tc (P2.Lex.Tok.layout_text items))
+  = parse_tokens pc ids (P2.Lex.Tok.tokenize tc (P2.Lex.Tok.layout_text items')).
+Proof. exact text_layout_irrelevant. Qed.
 
 (* parser half of C04, for EVERY configuration (no side condition on the table: the empty table and a prefix
    operator that is also the highest binary level included) and every token list of the full grammar:
@@ -125,6 +169,46 @@ Example C03_nonvacuous_disguised :
   parse ex_cfg ex_ids [k_ident [97%N]; k_op [60%N]; k_str [60%N]] = POk (AOp [60%N] 1 (AIdent [97%N] false) (AConst [60%N])).
 Proof. vm_compute. repeat split. Qed.
 
+(* full grammar, non-vacuity:  func f(n) if n < b then c else f(n - b) ; let k = 2 ; x -> f(x) - k - a
+   (table  -  <  <=  << ; a b c variables): the func is recursive and captures b and c, the constant let is
+   propagated, the closure captures f and a but not the constant k *)
+Definition ex_n := FIdent [110%N]. Definition ex_fb := FIdent [98%N]. Definition ex_x := FIdent [120%N].
+Definition ex_prog : ft :=
+  FFunc [102%N] [[110%N]]
+    (FIf (FBin 1 ex_n ex_fb) (FIdent [99%N]) (FCall (FIdent [102%N]) (FA_last (FBin 0 ex_n ex_fb))))
+    (FLet [107%N] (FNum [50%N])
+       (FClo1 [120%N] (FBin 0 (FBin 0 (FCall (FIdent [102%N]) (FA_last ex_x)) (FIdent [107%N])) (FIdent [97%N])))).
+Example C03_nonvacuous_full :
+  fwf ex_cfg ex_prog = true /\
+  parse ex_cfg ex_ids (fflatten ex_cfg ex_prog)
+  = POk (ALet [102%N]
+           (AClosure [[110%N]]
+              (AIf (AOp [60%N] 1 (AIdent [110%N] false) (AIdent [98%N] false)) (AIdent [99%N] false)
+                   (ACall (AIdent [102%N] false) [AOp [45%N] 0 (AIdent [110%N] false) (AIdent [98%N] false)]))
+              [[98%N]; [99%N]] true [102%N])
+           (AClosure [[120%N]]
+              (AOp [45%N] 0 (AOp [45%N] 0 (ACall (AIdent [102%N] false) [AIdent [120%N] false]) (AConst [50%N]))
+                            (AIdent [97%N] false))
+              [[102%N]; [97%N]] false [])).
+Proof. vm_compute. split; reflexivity. Qed.
+
+(* text to AST, computed end to end (tokenizer model, then parser model) on
+     func f(n) /* c */ n-b;<LF>  x->f ( x )<a // end
+   with a block comment, a line break, tight and spaced tokens and a line comment running to the end *)
+Definition tx_pc : pcfg := mkPcfg [[45]; [60]]%N [[45]]%N (Some (fun s => Some s)) (Some (fun s => s)).
+Definition tx_tc : P2.Lex.Tok.tcfg :=
+  P2.Lex.Tok.mkCfg [[45]; [60]; [61]; [45; 62]]%N [] [[108; 101; 116]; [102; 117; 110; 99]]%N true false P2.Lex.Tok.MSimple
+    (fun c => ((65 <=? c) && (c <=? 90)) || ((97 <=? c) && (c <=? 122)))%N (fun c => (48 <=? c) && (c <=? 57))%N.
+Definition tx_text : list N := [102; 117; 110; 99; 32; 102; 40; 110; 41; 32; 47; 42; 32; 99; 32; 42; 47; 32; 110; 45; 98; 59; 10; 32; 32; 120; 45; 62; 102; 32; 40; 32; 120; 32; 41; 60; 97; 32; 47; 47; 32; 101; 110; 100]%N.
+Example C03_text_to_ast_computed :
+  parse_tokens tx_pc [id_var [97]%N; id_var [98]%N] (P2.Lex.Tok.tokenize tx_tc tx_text)
+  = POk (ALet [102%N]
+           (AClosure [[110%N]] (AOp [45%N] 0 (AIdent [110%N] false) (AIdent [98%N] false)) [[98%N]] false [102%N])
+           (AClosure [[120%N]]
+              (AOp [60%N] 1 (ACall (AIdent [102%N] false) [AIdent [120%N] false]) (AIdent [97%N] false))
+              [[102%N]; [97%N]] false [])).
+Proof. vm_compute. reflexivity. Qed.
+
 Print Assumptions C03_parse_complete.
 Print Assumptions C03_parse_sound.
 Print Assumptions C03_renders_unique.
@@ -133,6 +217,11 @@ Print Assumptions C03_pp_min_roundtrip.
 Print Assumptions C03_pp_full_roundtrip.
 Print Assumptions C03_reject_nonrendering.
 Print Assumptions C03_reject_unbalanced.
+Print Assumptions C03_parse_complete_full.
+Print Assumptions C03_parse_sound_full.
+Print Assumptions C03_parse_iff_renders.
+Print Assumptions C03_text_to_ast.
+Print Assumptions C03_text_layout_irrelevant.
 Print Assumptions C03_parse_no_panic.
 Print Assumptions C03_parse_total.
 Print Assumptions C03_parse_fuel_stable.
